@@ -438,3 +438,89 @@ def _operator_unit():
 
 
 UNITS.append(_operator_unit())
+
+
+# ---- chains of comparisons / arithmetic through the REAL parser and the REAL nodes -------------------------------------------------------------
+# "every binary operator associating to the left": a op1 b op2 c is (a op1 b) op2 c.  For comparisons this is observable in the VALUE whatever
+# the numbers are: (a = b) is a logical value, and a logical value is never equal to a number and sorts above every number - so  a=b=c  is
+# FALSE,  a<b<>c  is TRUE,  a>b>c  is TRUE,  a=b<c  is FALSE  for ALL numbers a, b, c (also c = 0 or 1).  The tree is built natively by the
+# real parser from the concrete text; `eval` is interpreted node by node over SYMBOLIC cell values.
+CHAINS = [
+    ('=K1=K2=K3', lambda a, b, c: ('bool', False)), ('=K1<>K2=K3', lambda a, b, c: ('bool', False)), ('=K1<K2<>K3', lambda a, b, c: ('bool', True)),
+    ('=K1>=K2<>K3', lambda a, b, c: ('bool', True)), ('=K1>K2>K3', lambda a, b, c: ('bool', True)), ('=K1=K2<K3', lambda a, b, c: ('bool', False)),
+    ('=K1<=K2>=K3', lambda a, b, c: ('bool', True)), ('=K1=K2<=K3', lambda a, b, c: ('bool', False)),
+    ('=K1-K2-K3', lambda a, b, c: ('num', (a - b) - c)), ('=K1-K2+K3', lambda a, b, c: ('num', (a - b) + c)),
+    ('=K1-K2*K3', lambda a, b, c: ('num', a - (b * c))), ('=-K1-K2', lambda a, b, c: ('num', (0 - a) - b)),
+    ('=K1*K2-K3', lambda a, b, c: ('num', (a * b) - c)), ('=K1+K2=K3+K1', lambda a, b, c: ('cmp', (a + b, c + a))),
+]
+
+
+def chain_call(native, text):
+    def call(it, fn, a, b, c):
+        from xlcalculator import parser
+        from xlcalculator.xlfunctions import xl
+        tree = parser.FormulaParser().parse(text, {})
+        vals = {'S!K1': a, 'S!K2': b, 'S!K3': c}
+        log = []
+
+        def eval_cell(addr):
+            log.append(addr)
+            return vals[addr]
+        if native:
+            ctx = type('Ctx', (), {})()
+            ctx.sheet = ctx.refsheet = 'S'
+            ctx.ref, ctx.ranges, ctx.cells, ctx.namespace = 'S!Z9', {}, {}, xl.FUNCTIONS
+            ctx.eval_cell = eval_cell
+            ctx.set_sheet = lambda *a_: None
+            return tree.eval(ctx)
+        ctx = Stub('ctx', sheet='S', refsheet='S', ref='S!Z9', ranges={}, cells={}, namespace=xl.FUNCTIONS,
+                   eval_cell=ModelFn(lambda it_, ad: eval_cell(ad), 'eval_cell'), set_sheet=ModelFn(lambda it_, *a_: None, 'set_sheet'))
+        return it.call(type(tree).eval, [tree, ctx], {})
+    if native:
+        return lambda fn, *a: call(None, fn, *a)
+    return call
+
+
+def chain_ens(f):
+    def ens(a, b, c, out):
+        kind, exp = f(a.value, b.value, c.value)
+        if kind == 'bool':
+            return spec.is_bool(out, exp)
+        if kind == 'cmp':
+            return spec.is_bool(out, spec.num_eq(exp[0], exp[1]))
+        return spec.numeric_result(out, exp, tol=1e-12)
+    return ens
+
+
+CHNUM = lambda dom: Fork([Xl('Number', 'int', domain=dom), Xl('Number', 'real', domain=[float(d) + 0.5 for d in dom[:1]] + [float(dom[-1])])])
+for _text, _f in CHAINS:
+    UNITS.append(Unit(
+        id=f'C01/left_associative_chain[{_text}]', target='xlcalculator.ast_nodes:OperatorNode.eval', fork='star',
+        inputs=[('a', CHNUM([2, 1, 0])), ('b', CHNUM([1, 2, 0])), ('c', CHNUM([1, 0, 3]))],
+        cases=[Case('a op1 b op2 c through the real parser and the real nodes is (a op1 b) op2 c: a chain of comparisons compares the LOGICAL result of the '
+                    'first with the third operand (never equal to a number, above every number), arithmetic chains group to the left, * binds tighter',
+                    lambda *a: True, chain_ens(_f))],
+        call=chain_call(False, _text), native_call=chain_call(True, _text), bounded_domain_cap=120))
+
+
+# ---- a numeric literal is worth its own value (the percent step hands a hundredth of the written literal on as a NUMBER) -----------------------
+# The scanner's percent step (above) leaves ONE operand whose token value is a number, a hundredth of the literal; `OperandNode.eval` must yield
+# a Number of exactly that value - for ALL numbers, whole or not (a literal read back through int() would truncate 1.5% to 0).
+def _literal_call(native):
+    def call(it, fn, v):
+        from xlcalculator import ast_nodes
+        node = ast_nodes.OperandNode(_tok(v, 'operand', 'number'))
+        ctx = Stub('ctx', ref='S!Z9') if not native else None
+        return node.eval(ctx) if native else it.call(ast_nodes.OperandNode.eval, [node, ctx], {})
+    if native:
+        return lambda fn, v: call(None, fn, v)
+    return call
+
+
+UNITS.append(Unit(
+    id='C01/ast_nodes.OperandNode.eval/numeric_literal_is_worth_its_value', target='xlcalculator.ast_nodes:OperandNode.eval',
+    inputs=[('v', Fork([Prim('real', domain=[0.015, 2.5, -0.5]), Prim('int', domain=[0, 3])]))],
+    cases=[Case('a numeric operand (also the hundredth the percent step hands on) evaluates to a Number of exactly its value - whole or not',
+                lambda v: True, lambda v, out: spec.is_number(out, v, tol=1e-15))],
+    canary=Case('canary', lambda v: True, lambda v, out: spec.is_number(out, v + 1, tol=1e-15)),
+    call=_literal_call(False), native_call=_literal_call(True)))
